@@ -210,7 +210,7 @@ func Run(r *vh.Run) {
 		basis       basisKind
 		unconfirmed bool
 	}
-	cfgs := []cfg{{basisSame, false}, {basisBehind, false}, {basisFork, false}, {basisSame, true}, {basisBehind, true}}
+	cfgs := []cfg{{basisSame, false}, {basisBehind, false}, {basisFork, false}, {basisSame, true}, {basisBehind, true}, {basisFar, false}}
 	attempts := 0
 	for pass := 0; pass < r.Pick(1, 4); pass++ {
 		for _, rpc := range rpcs {
@@ -232,6 +232,10 @@ func Run(r *vh.Run) {
 				})
 				for _, k := range order {
 					f := fs[k]
+					if cf.basis == basisFar && !(f.kind == "none" || f.kind == "dial" || (f.kind == "drop" && f.pos <= 2) || (f.kind == "cancel" && f.pos == 1) ||
+						(f.kind == "hcall" && (f.name == "fund" || f.name == "updateinputs" || f.name == "element"))) {
+						continue // every attempt of this world costs 150 blocks: the faults around the host's funding
+					}
 					if r.Quick() && cf.basis != basisSame && f.kind == "corrupt" && k%3 != 0 {
 						continue // quick: corruptions are enumerated fully on the same-tip worlds
 					}
